@@ -8,3 +8,10 @@ mkdir -p bin evidence out
 ( cd harness && go build -o ../bin/verif ./cmd/verif && go build -o ../bin/protoc-gen-go google.golang.org/protobuf/cmd/protoc-gen-go )
 ( cd stubs/protovalidate && go build ./... )
 echo "setup ok"
+# Warm the shared Go build cache with the stable dependencies of generated workspaces (protobuf runtime,
+# engine, stand-in validator; plain, vet, test and -race configurations). Check runs compile generated code
+# against a throw-away hard-link clone of this cache, so it does not grow with use.
+for id in C04 C02 C14 C17 C13; do
+  VERIF_SHARED_GOCACHE=1 ./bin/verif $id quick >/dev/null 2>&1 || true
+done
+echo "cache warm"
